@@ -617,12 +617,22 @@ def main():
     chk.cov['distinct_nontrivial'] = nontrivial
     chk.cov['obligations'] = hist
     chk.cov['discharged'] = holds
+    from . import extras7
+    for fn_ in ('equal_root_models', 'primitive_root_with_user_classes'):
+        for pr in getattr(extras7, fn_)()[:2]:
+            chk.violation(pr, {'extras7': fn_})
+        chk.cov['traces_validated_against_impl'] += 1
+    chk.cov.setdefault('bounds', {})['concrete_supplements_round7'] = ['equal_root_models', 'primitive_root_with_user_classes']
     return chk.finish('one obligation per (scenario, input length, history): z3 query "some input distinguishes the live '
                       'parser model after the history from a fresh one"; non-trivial = histories of scenarios/lengths '
                       'that admit an accepted input')
 
 
 def replay(data):
+    if isinstance(data, dict) and data.get('extras7'):
+        from . import extras7
+        pr = getattr(extras7, data['extras7'])()
+        return bool(pr), pr[:2]
     if 'file_history' in data:
         r = file_history_side(data['provider'], data['global_repo'], data['file_history'])
         return bool(r), r
